@@ -16,6 +16,7 @@ pub mod s_inj;
 pub mod s_filter;
 pub mod s_exec;
 pub mod s_sqlx;
+pub mod s_quote;
 
 use common::*;
 use std::io::{BufRead, Write};
@@ -37,6 +38,8 @@ fn streams() -> Vec<(&'static str, GenFn, EvalFn)> {
         ("filterx", s_filter::genx, s_filter::evalx),
         ("sqlx", s_sqlx::gen, s_sqlx::eval),
         ("sizes", s_sqlx::gen_sizes, s_sqlx::eval_sizes),
+        ("c08x", s_sqlx::gen_c08x, s_sqlx::eval),
+        ("quote", s_quote::gen, s_quote::eval),
         ("c09", s_exec::gen_c09, s_exec::eval_c09),
         ("c01", s_exec::gen_c01, s_exec::eval_c01),
         ("clip", s_exec::gen_clip, s_exec::eval_clip),
